@@ -32,7 +32,10 @@ def make(spec: dict, dtype: str):
         for k in ("norm_eps", "reg_eps"):
             if k in spec:
                 kw[k] = spec[k]
-        return getattr(A, name)(pref_vector=_vec(spec.get("pref"), dtype), **kw)
+        pref = _vec(spec.get("pref"), dtype)
+        if spec.get("pref_int") and pref is not None:
+            pref = pref.round().to(torch.int64)  # an integer-valued preference vector given as an integer tensor
+        return getattr(A, name)(pref_vector=pref, **kw)
     if name == "MGDA":
         kw = {k: spec[k] for k in ("epsilon", "max_iters") if k in spec}
         return A.MGDA(**kw)
